@@ -19,7 +19,9 @@ RULE = ("the C05 generator (trees with ties, optional WHERE, 0..3 order keys, bf
         "(either resolution of a tie at the cut is accepted); limit 0 / absent limit give exactly the unlimited "
         "multiset. The same search is repeated with a second select list without the path column (values reached through "
         "function arguments, arithmetic, constants next to columns): its row counts for no limit, limit 0 and limit 1..min(M,6)+1 "
-        "must be the same M / min(N, M). Non-trivial sub-case = (pair, N) with 1 <= N < M and, when ordered, a tie straddling position N or "
+        "must be the same M / min(N, M). A third of the cases also run the search grouped (`select key, count(*), sum(size) ... "
+        "group by key [order by key | aggregate]`) with every N in 1..G+2: min(N, G) group rows, a sub-multiset of the unlimited "
+        "group rows, and with ORDER BY the ordering column's first N values. Non-trivial sub-case = (pair, N) with 1 <= N < M and, when ordered, a tie straddling position N or "
         "an archive member among the expected top N.")
 ASSUMPTIONS = [
     "which rows are returned without ORDER BY is not asserted (any N of them)",
@@ -56,6 +58,11 @@ def strategy_(draw, tier):
     case["archives"] = arch
     # a second select list without the path column: the number of rows must not depend on what is selected
     case["bare"] = draw(st.sampled_from(BARE_LISTS))
+    # ... and once more as a grouped query (a third of the cases)
+    case["grouped"] = None
+    if draw(st.sampled_from(range(3))) == 0:
+        case["grouped"] = {"key": draw(st.sampled_from(["ext", "dir", "is_dir", "length(name)"])),
+                           "order": draw(st.sampled_from([None, "1", "2", "count(*)", "sum(size)", "1"])), "desc": draw(st.booleans())}
     tops = [n for n, nd in spec.items() if nd["t"] == "d" and c05.c02 and n.replace(".", "").replace("_", "").isalnum()
             and not n[0].isdigit() and n not in ("size", "bin", "mode", "name")]
     case["roots"] = ["."]
@@ -187,6 +194,35 @@ def check(case):
                     out.add("C06/not-a-submultiset/other-select-list", query=q)
                     break
             out.classes.append("second-select-list")
+        # the same search grouped: LIMIT counts group rows (one per key), after ORDER BY
+        g = case.get("grouped")
+        if g:
+            gsel = "select %s, count(*), sum(size)" % g["key"]
+            gtail = tail + " group by " + g["key"]
+            gorder = "" if not g["order"] else " order by %s%s" % (g["order"], " desc" if g["desc"] else "")
+            full = c05.run_rows(out, base, gsel + gtail + gorder + " into list", 3, "C06")
+            if full is not None:
+                gm = len(full)
+                oidx = {"1": 0, "2": 1, "count(*)": 1, "sum(size)": 2}.get(g["order"], 0) if g["order"] else None
+                for n in list(range(1, gm + 3)) + [0]:
+                    q = gsel + gtail + gorder + " limit %d into list" % n
+                    rows = c05.run_rows(out, base, q, 3, "C06")
+                    if rows is None:
+                        continue
+                    expect_n = gm if n == 0 else min(n, gm)
+                    if len(rows) != expect_n:
+                        out.add("C06/count/grouped/%s" % ("too-few" if len(rows) < expect_n else "too-many"), query=q, got=len(rows),
+                                want=expect_n, groups=gm)
+                        break
+                    if collections.Counter(rows) - collections.Counter(full):
+                        out.add("C06/not-a-submultiset/grouped", query=q)
+                        break
+                    if oidx is not None and [r[oidx] for r in rows] != [r[oidx] for r in full[:expect_n]]:
+                        out.add("C06/not-the-top-n/grouped", query=q, got=[r[oidx] for r in rows][:8], want=[r[oidx] for r in full[:expect_n]][:8])
+                        break
+                    if 1 <= n < gm:
+                        nt_keys.append("%s|grouped|%d" % (ck, n))
+                out.classes.append("grouped")
         out.classes += ["ordered" if case["keys"] else "unordered", "M=%s" % ("0" if m == 0 else "1-9" if m < 10 else "10-29" if m < 30 else "30+")]
         if case.get("archives"):
             out.classes.append("archives")
